@@ -136,5 +136,20 @@ for line in rt.printed("TVERDICT"):
   v = json.loads(json.loads(line[line.index(",") + 1:line.rindex(">>")].strip()))
   acc[v["ti"]] = acc.get(v["ti"], False) or v["accepted"]
 expect("CalibTrace: genuine calibration trace accepted, corrupted 'updated' rejected, missing event rejected", acc == {1: True, 2: False, 3: False}, str(acc))
+# Subchannel.tla: the invariants see a replaced operator that is not deleted; GraphWF's clauses see a corrupted observed graph
+for bugs, want in (("{}", False), ('{"keep_fc"}', True)):
+  rs = tlc.run("selftest_subchannel", "Subchannel", dict(MaxFC="1", Bugs=bugs), invariants=["InvWellFormed", "InvIO", "InvOthersKept", "InvOutputRewired", "InvCount"], workers=8)
+  expect("Subchannel bugs %-12s InvWellFormed %s" % (bugs, "violated" if want else "holds"), ("InvWellFormed" in rs.violated) == want, str(rs.violated))
+good = {"id": 1, "nt": 4, "ops": [{"code": "A", "ins": [0, 1], "outs": [2]}, {"code": "B", "ins": [2, -1], "outs": [3]}], "gins": [0], "gouts": [3], "consts": [1], "names": ["x", "w", "h", "y"]}
+swapped = dict(good, id=2, ops=good["ops"][::-1])
+twice = dict(good, id=3, ops=good["ops"] + [{"code": "C", "ins": [0], "outs": [3]}])
+dup = dict(good, id=4, names=["x", "w", "h", "h"])
+oob = dict(good, id=5, gouts=[4])
+opj = _os.path.join(tlc.WORK, "selftest_graphwf.json")
+json.dump([good, swapped, twice, dup, oob], open(opj, "w"))
+rg = tlc.run("selftest_graphwf", "ObservedSubchannel", {}, constraints=["Emit"], workers=1, env={"OBS_FILE": opj})
+vd = {v["id"]: v for v in rg.json_dumps("VERDICT")}
+expect("GraphWF: good graph passes; swapped order / two producers / duplicate name / index out of range are each seen",
+       len(vd) == 5 and all(vd[1].values()) and not vd[2]["topo"] and not vd[3]["single"] and not vd[4]["names"] and not vd[5]["inrange"], str({k: [c for c, x in v.items() if x is False] for k, v in vd.items()}))
 print("SELFTEST", "PASSED" if ok else "FAILED")
 sys.exit(0 if ok else 1)
